@@ -101,7 +101,7 @@ PROPS = {
     'C19': dict(
         technique='Verus contracts with loop invariants on lifted contract_segmentation functions',
         level_text='Deductive proof of the segmentation conjunct: segment lengths are positive and add up to the bytecode length; branch targets stay inside their function.',
-        level_note='Proved: the segmentation conjunct. The other conjuncts live in closures of a 250-line function that needs a full compile; selector order, canonical words, hint offsets, segment sum, reproducibility and the felt round trip are covered only by bounded native stand-ins on the checked-in contract classes (n_c19_class: selector order, entry offsets vs function starts, builtin lists and their protocol order, canonical words, hint offsets, segment sum, reproducibility; n_c18_compress: felt round trip; n_class_gen: entry-point signature validation on generated contracts over every builtin-type sequence up to length 3/4 and all 512 protocol-shaped signatures, and on single mutations of valid contracts). Hash stability under JSON round trips is covered only by the bounded stand-in n_c19_class/json_hash_stable (checked-in classes, compact/pretty JSON, with/without pythonic hints).',
+        level_note='Proved: the segmentation conjunct. The other conjuncts live in closures of a 250-line function that needs a full compile; selector order, canonical words, hint offsets, segment sum, reproducibility and the felt round trip are covered only by bounded native stand-ins on the checked-in contract classes (n_c19_class: selector order, entry offsets vs function starts, builtin lists and their protocol order, canonical words, hint offsets, segment sum, reproducibility; n_c18_compress: felt round trip; n_class_gen: entry-point signature validation on generated contracts over every builtin-type sequence up to length 3/4 and all 512 protocol-shaped signatures, and on single mutations of valid contracts). The first conjunct (published == direct) is covered only by the bounded stand-in n_c19_class/published_equals_direct (checked-in contracts: direct compile == freshly published == checked-in published). Hash stability under JSON round trips is covered only by the bounded stand-in n_c19_class/json_hash_stable (checked-in classes, compact/pretty JSON, with/without pythonic hints).',
         scope='Bytecode segmentation conjunct (DESIGN.md 4/C19).',
         assumptions=[A0, A1, A3, A4],
         outside=['find_functions_segments', 'functions_statement_ids_to_offsets', 'consts_segments_offsets', 'all other conjuncts of C19 (selectors, builtins, entry offsets, hashes)'],
